@@ -121,6 +121,28 @@ fn parse_via(wk: &mut Worker, text: &str) -> J {
     }
 }
 
+/// worker side of filter.weq
+pub fn worker_weq(req: &J) -> J {
+    let build = || -> Result<(Filter, Dict, Vec<Dict>), String> {
+        let text = text_of(&req["text"])?;
+        let rec = gamma_tags(&req["rec"])?;
+        let db: Vec<Dict> = req["db"].as_array().ok_or("db")?.iter().map(gamma_tags).collect::<Result<_, _>>()?;
+        let f = Filter::try_from(text.as_str()).map_err(|e| e.to_string())?;
+        Ok((f, rec, db))
+    };
+    match build() {
+        Err(m) => json!({"outcome":"err","msg":m}),
+        Ok((f, rec, db)) => {
+            let resolver = DbResolver { db };
+            let r = guarded(|| {
+                let ctx = EvalContext::make(&rec, &DEFAULT_NS, &resolver);
+                f.eval(&ctx)
+            });
+            json!({"outcome":"ok","truth":truth(r)})
+        }
+    }
+}
+
 fn truth(r: Result<bool, String>) -> J {
     match r {
         Ok(b) => J::from(if b { "T" } else { "F" }),
@@ -200,23 +222,18 @@ pub fn run(vec: &J, out: &mut Out, wk: &mut Worker) -> Result<(), String> {
             Ok(())
         }
         "filter.weq" => {
-            let text = text_of(&vec["text"])?;
-            let rec = gamma_tags(&vec["rec"])?;
-            let db: Vec<Dict> = vec["db"].as_array().ok_or("db")?.iter().map(gamma_tags).collect::<Result<_, _>>()?;
-            let f = Filter::try_from(text.as_str()).map_err(|e| e.to_string())?;
-            let resolver = DbResolver { db };
-            // evaluation with a cyclic resolver must terminate: run it on a thread with a time limit
-            let (tx, rx) = std::sync::mpsc::channel();
-            std::thread::spawn(move || {
-                let r = guarded(|| {
-                    let ctx = EvalContext::make(&rec, &DEFAULT_NS, &resolver);
-                    f.eval(&ctx)
-                });
-                let _ = tx.send(r);
-            });
-            let t = match rx.recv_timeout(std::time::Duration::from_secs(5)) {
-                Ok(r) => truth(r),
-                Err(_) => J::from("timeout"),
+            // evaluation with a cyclic resolver must terminate: it runs in the worker process, which is killed when no
+            // reply arrives in time (3 s, retried once alone with 15 s; after three such hangs in a run the limits
+            // drop to 1 s / 5 s so that a tree that hangs on many databases is still reported in bounded time)
+            static HANGS: std::sync::atomic::AtomicUsize = std::sync::atomic::AtomicUsize::new(0);
+            let limit = if HANGS.load(std::sync::atomic::Ordering::Relaxed) >= 3 { 1000 } else { 3000 };
+            let t = match wk.call(&json!({"w":"filter.weq","text":vec["text"],"rec":vec["rec"],"db":vec["db"]}), limit) {
+                Ok(r) if r["outcome"] == "ok" => r["truth"].clone(),
+                Ok(r) => return Err(format!("filter.weq vector not executable: {}", r["msg"])),
+                Err(f) => {
+                    HANGS.fetch_add(1, std::sync::atomic::Ordering::Relaxed);
+                    J::from(f)
+                }
             };
             out.emit(json!({"op":"filter.weq","rec":vec["rec"],"db":vec["db"],"path":vec["path"],"target":vec["target"],"text":vec["text"],"truth":t}));
             Ok(())
